@@ -108,10 +108,10 @@ def configs(tier, seed=0):
             out.append({'key': 'exp/%s/N%d+M%d/warmup0' % (alg, N, M), 'iface': 'exp', 'alg': alg, 'N': N, 'M': M, 'Nb': 0, 'max_paths': 6000, 'time_budget': 1500})
         if alg in ('NUTSflat0', 'LinearRTO', 'Conjugate'):
             out.append({'key': 'exp/%s/N1+M1/warmup2' % alg, 'iface': 'exp', 'alg': alg, 'N': 1, 'M': 1, 'Nb': 2, 'max_paths': 6000, 'time_budget': 1500})
-        out.append({'key': 'exp/%s/reinitialize' % alg, 'iface': 'exp-reinit', 'alg': alg, 'N': 1, 'M': 0, 'Nb': 1})
+        out.append({'key': 'exp/%s/reinitialize' % alg, 'iface': 'exp-reinit', 'alg': alg, 'N': 1, 'M': 0, 'Nb': 1, 'max_paths': 4000})
     # both Gibbs samplers with real MH blocks on a joint of uninterpreted factors: N then M sweeps == N+M sweeps on one stream
     for graph in (['pair'] if tier == 'quick' else ['pair', 'chain3', 'collider3']):
-        for N, M in ([(1, 1)] if tier == 'quick' else [(1, 1), (2, 1)]):
+        for N, M in ([(1, 1)] if (tier == 'quick' or graph != 'pair') else [(1, 1), (2, 1)]):      # 3 accept/reject outcomes per MH step: 3^(blocks*sweeps) paths
             out.append({'key': 'exp/HybridGibbs/%s/N%d+M%d' % (graph, N, M), 'iface': 'gibbs', 'which': 'exp', 'graph': graph, 'N': N, 'M': M, 'max_paths': 6000, 'time_budget': 1500})
             out.append({'key': 'legacy/Gibbs/%s/N%d+M%d' % (graph, N, M), 'iface': 'gibbs', 'which': 'legacy', 'graph': graph, 'N': N, 'M': M, 'max_paths': 6000, 'time_budget': 1500})
             if (N, M) == (1, 1) and graph == 'pair':
